@@ -33,6 +33,9 @@ SPELL = {
     # literal, template name): equal spelling, different value
     "bmeth": lambda: pt.Bytes("f()void"), "baddr": lambda: pt.Bytes(GOOD_ADDR), "b0x": lambda: pt.Bytes("0x61"),
     "btm": lambda: pt.Bytes("TMPL_B"),
+    # literals with blanks at their ends: the blanks belong to the value
+    "methsp": lambda: pt.MethodSignature("f()void "), "methtab": lambda: pt.MethodSignature("\tf()void"),
+    "bsp": lambda: pt.Bytes(" a "),
 }
 RANK_POOL = {
     "s0": lambda: pt.Int(0), "s1": lambda: pt.Int(1), "s2": lambda: pt.Int(2), "s3": lambda: pt.Int(3),
@@ -42,7 +45,7 @@ RANK_POOL = {
     "be": lambda: pt.Bytes("e"), "bf": lambda: pt.Bytes("base64", "Zg=="), "bT": lambda: pt.Tmpl.Bytes("TMPL_Y"),
 }
 INTS = ["i0", "i1", "i127", "i128", "imax", "optin", "pay", "ti"]
-BYTES = ["ba", "b16", "b64", "b32", "be", "be16", "addr", "meth", "tb", "bq", "bu", "bs", "bmeth", "baddr", "b0x", "btm"]
+BYTES = ["ba", "b16", "b64", "b32", "be", "be16", "addr", "meth", "tb", "bq", "bu", "bs", "bmeth", "baddr", "b0x", "btm", "methsp", "methtab", "bsp"]
 
 
 def seq_program(names):
